@@ -66,7 +66,7 @@ theorem multi_point_positionwise (p1 p2 : List α) (idx : List Nat) (hl : p1.len
     (hne : idx ≠ []) (hlt : idx.length < p1.length) (hr : ∀ x ∈ idx, x ≤ p1.length) :
     ∃ c1 c2, multiPointCrossover p1 p2 idx = some (c1, c2) ∧
       c1.length = p1.length ∧ c2.length = p1.length ∧
-      ∀ k, c1[k]? = (if idx.countP (· ≤ k) % 2 = 1 then p2[k]? else p1[k]?) ∧
+      ∀ k : Nat, c1[k]? = (if idx.countP (· ≤ k) % 2 = 1 then p2[k]? else p1[k]?) ∧
            c2[k]? = (if idx.countP (· ≤ k) % 2 = 1 then p1[k]? else p2[k]?) := by
   obtain ⟨d1, d2, h, l1, l2, hk⟩ := mpxLoop_spec p1 p2 idx.length hl idx 0 p1 p2 hl hr
   refine ⟨d1, d2, ?_, l1, l2, hk⟩
@@ -80,7 +80,7 @@ theorem multi_point_positionwise (p1 p2 : List α) (idx : List Nat) (hl : p1.len
 theorem multi_point_genes_conserved (p1 p2 : List α) (idx : List Nat) (hl : p1.length = p2.length)
     (hne : idx ≠ []) (hlt : idx.length < p1.length) (hr : ∀ x ∈ idx, x ≤ p1.length) :
     ∃ c1 c2, multiPointCrossover p1 p2 idx = some (c1, c2) ∧
-      ∀ k, (c1[k]? = p1[k]? ∧ c2[k]? = p2[k]?) ∨ (c1[k]? = p2[k]? ∧ c2[k]? = p1[k]?) := by
+      ∀ k : Nat, (c1[k]? = p1[k]? ∧ c2[k]? = p2[k]?) ∨ (c1[k]? = p2[k]? ∧ c2[k]? = p1[k]?) := by
   obtain ⟨c1, c2, h, _, _, hk⟩ := multi_point_positionwise p1 p2 idx hl hne hlt hr
   refine ⟨c1, c2, h, fun k => ?_⟩
   have := hk k
@@ -97,7 +97,7 @@ theorem uniform_positionwise (p1 p2 : List α) (mask : List Bool) (hl : p1.lengt
       ∀ k (hk : k < p1.length),
         c1[k]? = (if mask[k]'(hm ▸ hk) then p2[k]? else p1[k]?) ∧
         c2[k]? = (if mask[k]'(hm ▸ hk) then p1[k]? else p2[k]?) := by
-  have hv : uxValid p1.length p2.length mask = true := by simp [uxValid, hl, hm, ← hl]
+  have hv : uxValid p1.length p2.length mask = true := by simp [uxValid, hm, ← hl]
   refine ⟨_, _, uniformCrossover_eq p1 p2 mask hv, ?_, ?_, ?_⟩
   · simp [uxSpec, List.length_zipWith, hm, ← hl]
   · simp [uxSpec, List.length_zipWith, hm, ← hl]
@@ -115,7 +115,7 @@ theorem uniform_positionwise (p1 p2 : List α) (mask : List Bool) (hl : p1.lengt
 theorem uniform_genes_conserved (p1 p2 : List α) (mask : List Bool) (hl : p1.length = p2.length)
     (hm : mask.length = p1.length) :
     ∃ c1 c2, uniformCrossover p1 p2 mask = some (c1, c2) ∧
-      ∀ k, k < p1.length →
+      ∀ k : Nat, k < p1.length →
         (c1[k]? = p1[k]? ∧ c2[k]? = p2[k]?) ∨ (c1[k]? = p2[k]? ∧ c2[k]? = p1[k]?) := by
   obtain ⟨c1, c2, h, _, _, hk⟩ := uniform_positionwise p1 p2 mask hl hm
   refine ⟨c1, c2, h, fun k hlt => ?_⟩
